@@ -80,8 +80,47 @@ func runC19(c *eng.Ctx) {
 					ok2 := arg != nil && eng.LoopVariant(arg, b)
 					c.Ob("CURSOR-pagination", fmt.Sprintf("%s %s#%d", eng.FuncName(fn), short, ord[short]), ok2, call.Pos(),
 						"a listing call repeated in a loop must advance its start name between iterations (otherwise the same page is read again)")
+					// the page after the first continues behind the last name already delivered: the inclusive flag that
+					// arrives over the loop's back edge is false
+					if ci+1 < sig.Params().Len() && sig.Params().At(ci+1).Type().String() == "bool" {
+						okInc, why := continuationExclusive(eng.Arg(call, ci+1), b)
+						c.Ob("CURSOR-pagination", fmt.Sprintf("%s %s#%d continuation-exclusive", eng.FuncName(fn), short, ord[short]), okInc, call.Pos(),
+							"a continuation page starts after the last name already delivered (the inclusive flag is false on every iteration but the first)"+why)
+					}
 				}
 			}
+		}
+	}
+	// the generic prefix filter hands the caller's (start name, inclusive) pair to the store for the first page: when it
+	// replaces the start name by something else, the caller's inclusive flag no longer describes it
+	if fn := c.NeedFunc("weed/filer", "(*FilerStoreWrapper).prefixFilterEntries"); fn != nil {
+		nFirst := 0
+		for i, in := range eng.Find(fn, eng.PlainCallTo("filer.FilerStore).ListDirectoryEntries")) {
+			if eng.InCycle(in.Block()) {
+				continue
+			}
+			call := in.(*ssa.Call)
+			ci := cursorParamIndex(call.Call.Signature())
+			if ci < 0 {
+				continue
+			}
+			nFirst++
+			startPure, incPure := true, true
+			for _, v := range eng.ResolveFrom(eng.Arg(call, ci), call) {
+				if !eng.IsParam(v, "startFileName") {
+					startPure = false
+				}
+			}
+			for _, v := range eng.ResolveFrom(eng.Arg(call, ci+1), call) {
+				if !eng.IsParam(v, "includeStartFile") {
+					incPure = false
+				}
+			}
+			c.Ob("CURSOR-pagination", fmt.Sprintf("%s first-page-pair#%d", eng.FuncName(fn), i), startPure || !incPure, call.Pos(),
+				"the first page is requested with the caller's start name and the caller's inclusive flag together (a substituted start name with the caller's exclusive flag skips the entry of that name)")
+		}
+		if nFirst == 0 {
+			c.Undecided("CURSOR-pagination", eng.FuncName(fn)+" first-page-pair", fn.Pos(), "first-page listing calls not found")
 		}
 	}
 	c.Sites += nLoopCalls
@@ -441,4 +480,46 @@ func runC19(c *eng.Ctx) {
 		}
 	}
 	c.Expect("LIMIT-filter", 2)
+}
+
+// continuationExclusive: the boolean v, used in block at inside a loop, is false whenever control arrives over a back
+// edge of an enclosing loop: it is the constant false, or a loop-header phi whose back-edge operands are (recursively) so.
+func continuationExclusive(v ssa.Value, at *ssa.BasicBlock) (bool, string) {
+	seen := map[ssa.Value]bool{}
+	var rec func(v ssa.Value, viaBack bool) (bool, string)
+	rec = func(v ssa.Value, viaBack bool) (bool, string) {
+		if k, ok := eng.ConstBool(v); ok {
+			// a constant used at a call inside the loop is the value of every iteration, continuations included
+			if !k {
+				return true, ""
+			}
+			return false, ": the flag is true on a continuation"
+		}
+		if seen[v] {
+			return true, ""
+		}
+		seen[v] = true
+		if phi, ok := v.(*ssa.Phi); ok {
+			h := phi.Block()
+			loop := eng.NaturalLoop(h)
+			isHeader := len(loop) > 0 && loop[at]
+			for i, p := range h.Preds {
+				// a join that is not the header of a loop around the call yields the same value on every iteration
+				back := viaBack || !isHeader || h.Dominates(p)
+				if !back {
+					continue // first iteration: whatever the caller asked for
+				}
+				if ok, why := rec(phi.Edges[i], true); !ok {
+					return false, why
+				}
+			}
+			return true, ""
+		}
+		if !viaBack {
+			// not a loop-carried value: the same request value is used on every iteration
+			return false, ": the flag is recomputed from the request on every iteration instead of being cleared after the first page"
+		}
+		return false, ": the value arriving over the back edge is not the constant false"
+	}
+	return rec(v, false)
 }
